@@ -53,8 +53,10 @@ def run(ctx):
     root = common.scratch_dir('c03')
     encs = ['utf-8', 'utf-8', 'cp1251', 'latin-1'] if ctx.quick else ['utf-8', 'cp1251', 'latin-1', 'cp1252', 'koi8-r', 'iso8859-7']
     for i in range(ctx.scale(10, 120)):
-        enc = rng.choice(encs)
+        enc = rng.choice(encs) if i else 'utf-8'
         pws0 = gen_passwords.gen_list(rng, n=rng.randint(6, 22), tame=True, dup_rate=0.3, family=(True if i == 0 else None))
+        if i == 0:
+            pws0 += gen_passwords.CASED_SYMBOL_CORPUS      # symbols that str.lower() changes, in front of / behind letter runs
         pws = []
         for p in pws0:
             try:
